@@ -100,3 +100,21 @@ Proof.
   - intros (lang & exts & Hin & _ & He). apply existsb_eqb_In. apply H2. apply in_flat_map.
     exists (lang, exts). auto.
 Qed.
+
+Lemma has_language_eq p : has_language p = is_source_file p.
+Proof.
+  unfold has_language, is_source_file, is_source_name.
+  pose proof ext_tables_agree_true as H. unfold ext_tables_agree in H.
+  apply andb_true_iff in H. destruct H as (H & _). apply andb_true_iff in H. destruct H as (H & _).
+  apply andb_true_iff in H. destruct H as (H1 & H2). rewrite forallb_forall in H1, H2.
+  set (e := suffix (last p ""%string)).
+  destruct (existsb (String.eqb e) source_extensions) eqn:E1.
+  - apply existsb_exists in E1. destruct E1 as (x & Hx & E). apply String.eqb_eq in E. subst x.
+    apply H1 in Hx. rewrite existsb_exists in Hx. destruct Hx as (y & Hy & E). apply String.eqb_eq in E. subst y.
+    apply existsb_exists. exists e. split; [assumption|apply String.eqb_refl].
+  - destruct (existsb (String.eqb e) (flat_map snd language_extensions)) eqn:E2; [|reflexivity].
+    apply existsb_exists in E2. destruct E2 as (x & Hx & E). apply String.eqb_eq in E. subst x.
+    apply H2 in Hx. rewrite existsb_exists in Hx. destruct Hx as (y & Hy & E). apply String.eqb_eq in E. subst y.
+    assert (existsb (String.eqb e) source_extensions = true) by (apply existsb_exists; exists e; split; [assumption|apply String.eqb_refl]).
+    congruence.
+Qed.
